@@ -270,8 +270,19 @@ def gen_c14(seed, tier, start):
     for _ in range(150 if tier == "quick" else 3000):
         n = rng.below(4)
         texts.append("{" + ",".join('"%s":%s' % (rng.pick(keys), rng.pick(vals)) for _ in range(n)) + "}")
+    texts += ['{"customElementPatterns": ["foo(", ")bar"]}', '{"customElementPatterns": ["^x-", "("]}', '{"customElementPatterns": ["[a-", "z]"]}',
+              '{"customElementPatterns": ["(?i)^x-", "^my"]}', '{"customElementPatterns": ["a{2", "}"]}']
     for t in texts:
         out.append({"id": i, "src": src, "syntax": "jsx", "options": t, "stream": "options", "feat": ["options-text"]}); i += 1
+    # (1b) pattern lists against no pattern at all, on modules none of whose tags they match
+    pools = [["(?i)^x-", "^my"], ["^zzz", "(?i:qq)$"], ["^(?i)never", "-nope$"], ["(?s)^q.", "^w"]]
+    for c in gen_modules(seed + 17, tier, i, 60, 1500):
+        o = json.loads(c["options"]); o.pop("customElementPatterns", None)
+        a = dict(o); o["customElementPatterns"] = pools[rng.below(len(pools))]
+        c["options"] = json.dumps(o); c["options_alt"] = json.dumps(a); c["nomatch_pair"] = True
+        c["id"] = i; i += 1
+        c["feat"] = c["feat"] + ["nomatch-patterns"]
+        out.append(c)
     # (2) paired runs: flip an option whose feature the module does not use
     mods = gen_modules(seed, tier, i, 220, 5000)
     for c in mods:
@@ -303,9 +314,17 @@ def judge_c14(case, side, res):
         ok = res is not None and res.get("optcorr") == "1"
         return {"relevant": True, "ok": True, "corr_ok": ok, "why": None if ok else "serde rejected the configuration but the model of Options accepts it"}
     v = make_judge(None, None, whole=True)(case, side, res)
+    if any(isinstance(x, list) and len(x) == 2 and x[1] is False for x in side.get("regex_valid", [])):
+        # every pattern is compiled on its own by the harness: one of them is not a regular expression
+        v["ok"] = False; v["oracle_why"] = "a configuration with an invalid custom-element pattern was accepted: %s" % [x[0] for x in side["regex_valid"] if x[1] is False]
+        return v
     if res is not None and res.get("optcorr", "1") != "1":
         v["corr_ok"] = False; v["why"] = "model of Options deserialisation disagrees with serde_json"
-    if res is not None and "options_alt" in case and res.get("alt_same", "1") != "1":
+    if res is not None and case.get("nomatch_pair") and res.get("alt_same", "1") != "1":
+        ms = side.get("matches", [])
+        if all(not any(m[1]) for m in ms):
+            v["ok"] = False; v["oracle_why"] = "custom-element patterns that match no tag of the module (each compiled on its own) changed the output"
+    if res is not None and "options_alt" in case and not case.get("nomatch_pair") and res.get("alt_same", "1") != "1":
         v["ok"] = False; v["oracle_why"] = "flipping %s changed the output although the module does not use that feature" % [x for x in case["feat"] if x.startswith("flip:")]
     if case.get("stream") == "options" and res is not None and st == "ok":
         # documented defaults: `{}` and `[]` behave as no configuration
@@ -784,7 +803,9 @@ PROPS = {
             "assumptions": []},
     "C13": {
         "gen": gen_c13,
-        "judge": make_judge("oC13", "vC13", relevant=lambda c, s, r: '"optimize": true' in c["options"] or '"optimize":true' in c["options"]),
+        "judge": lambda c, s, r: (lambda v: (v.update({"ok": False, "oracle_why": "a slot with a file-bound identifier among its direct children (or inside elements nested directly in it) carries `_: 1`"}) or v)
+                                  if (v.get("ok", True) and r is not None and s.get("status") == "ok" and r.get("oC13slots", "1") != "1") else v)(
+            make_judge("oC13", "vC13", relevant=lambda c, s, r: '"optimize": true' in c["options"] or '"optimize":true' in c["options"])(c, s, r)),
         "trusted": ["Spec/PatchFlags.v is this check's reading of Vue's patch-flag contract (shouldUpdateComponent / patchElement use of CLASS, STYLE, PROPS, FULL_PROPS, dynamicProps)"],
         "assumptions": ["the `_`=2 rule for bound identifier children is covered by the correspondence (whole slot objects are in the view) and by C13_slot_hint_values; its full statement is not yet a theorem"],
     },
